@@ -1,4 +1,5 @@
 import Whv.Lemmas.Gossip
+import Whv.Props.C02
 /-!
 # C03 — gossip not signed by a current guardian cannot change node state
 # (the two p2p verifiers, the heartbeat table with its per-guardian cap, domain separation)
@@ -406,5 +407,45 @@ theorem c03_protocol_constants :
 
 example : "heartbeat|".toList.map (fun c => c.toNat) = Whv.Gen.C03.heartbeatPrefix.map (·.toNat) ∧
     "signed_observation_request|".toList.map (fun c => c.toNat) = Whv.Gen.C03.obsReqPrefix.map (·.toNat) := by decide
+
+/-! ## gossiped observations (the processor's gate) -/
+
+/-- **Observation gate.** A gossiped observation affects the node only if its signature recovers to the address it
+claims and that address belongs to the applicable guardian set (the entry's snapshot if it has one, else the current
+set): any other observation — forged signature, signature over another digest, signer outside the set, a member using
+another member's address, no set known yet — leaves aggregation state, store and guardian set untouched and emits
+nothing. (This is `C02.invalid_observation_noop` on the processor model of `handleObservation`.) -/
+theorem observation_gate_noop (O : Whv.Proc.Oracle) (cfg : Whv.Proc.Config) (s : Whv.Proc.PState) (o : Whv.Proc.Obs)
+    (now : Int) (h : ¬ Whv.C02.Accepted O s o) :
+    Whv.Proc.step O cfg s (.observation o now) = .ok s [] :=
+  Whv.C02.invalid_observation_noop O cfg s o now h
+
+/-- Conversely, whatever an accepted observation records is filed under the recovered signer, who is a member of the
+applicable set: the only change to the aggregation map is at the observation's own digest. -/
+theorem observation_changes_only_its_digest (O : Whv.Proc.Oracle) (cfg : Whv.Proc.Config) (s s' : Whv.Proc.PState)
+    (o : Whv.Proc.Obs) (now : Int) (outs : List Whv.Proc.Out)
+    (hr : Whv.Proc.step O cfg s (.observation o now) = .ok s' outs) :
+    s'.gs = s.gs ∧ (s'.agg = s.agg ∨ ∃ st, s'.agg = Whv.Proc.alInsert o.hash st s.agg) := by
+  unfold Whv.Proc.step Whv.Proc.handleObservation at hr
+  simp only at hr
+  split at hr
+  · cases hr; exact ⟨rfl, Or.inl rfl⟩
+  · split at hr
+    · cases hr; exact ⟨rfl, Or.inl rfl⟩
+    · split at hr
+      · cases hr; exact ⟨rfl, Or.inl rfl⟩
+      · split at hr
+        · cases hr; exact ⟨rfl, Or.inl rfl⟩
+        · unfold Whv.Proc.obsFinish at hr
+          split at hr
+          · cases hr
+          · split at hr
+            · cases hr; exact ⟨rfl, Or.inr ⟨_, rfl⟩⟩
+            · simp only at hr
+              split at hr
+              · split at hr
+                · cases hr
+                · cases hr; exact ⟨rfl, Or.inr ⟨_, rfl⟩⟩
+              · cases hr; exact ⟨rfl, Or.inr ⟨_, rfl⟩⟩
 
 end Whv.C03
